@@ -97,6 +97,15 @@ func runC11(c *Ctx) {
 			"a  \nb", "a \\  \nb", "*a*   \nb", "x\n\n    y   \n", "# h  \n", "> a   \n> b", "- a   \n", "a\n b\n  c", "\\*a\\*", "a\\\nb", "1. x\n   y  \n"} {
 			add("targeted", []byte(t))
 		}
+		// bytes that come close to an extension's trigger syntax without being it
+		near := []string{"x!y^2]", "(n!)^2]", "!^]", "a!b^c] d", "[x^]", "^[a]", "[ ^a]", "[a^b]", "!x^", "![a!b^c](/u)", "[q!r^s][ref]\n\n[ref]: /u", "[wow!2^8]\n\n[wow!2^8]: /u", "a [x] b", "- a [x]", "[x] a", "-[ ] a", "- [y] a", "- [ ]a", "-  [ ] a", "1.[x] a",
+			"http:/a.b", "http//a.b", "www a.b", "www.a", "ww.a.b", "a@b", "a@.b", "@a.b", "mailto:", "ftp:a.b", "http://", "://a.b", "a:b", "a : b", "x\n:y", "x\n :", ":\n", "a\n\n:b",
+			"a|b", "|", "a|\nb|", "|-", "-|-\n", "a\n-|", "| a |\n| b |", "a|b\n=|=", "1-2", "a - b", "a -- b"[:5], "'", "it's", "2\"", "a.b", "a. .b", "<a", "a>", "< <", "> >", "~", "a~b", "~ ~", "a ~ b~"}
+		for _, n := range near {
+			add("near-trigger", []byte(n))
+			add("near-trigger", []byte("- "+n+"\n\n> "+n+"\n"))
+			add("near-trigger", []byte("# "+n+"\n\n*"+n+"* ["+n+"](/u)\n"))
+		}
 	})
 	lawSweepAll(c, cfgs, items, "extension-conservativity", func(d []byte) bool { return true }, func(m mdT, all []mdT, d []byte) (string, bool) {
 		if m.cf.Ext != "core" {
